@@ -375,7 +375,9 @@ def run(ctx) -> None:
     gn = db.cls("nodes.graph_node.GraphNode")
     init = gn.methods["__init__"]
     outs = [n for n in walk_local(init.node) if isinstance(n, ast.Assign) and any(src(t) == "self.outputs" for t in n.targets)]
-    ok = len(outs) == 1 and _exposes_selection_else_all(db, init, outs[0].value)
+    from .common import wrapper_outputs_expose_selection
+
+    ok = wrapper_outputs_expose_selection(db, init, outs)
     from .c17 import check_wrapper_offers_no_inner_signals
 
     check_wrapper_offers_no_inner_signals(ctx, "C16.R6")
